@@ -159,3 +159,219 @@ c17_kernel!(c17_o1_l2_avx512, c17_o1_l2_avx512__witness, binary_body, l2_distanc
 c17_kernel!(c17_o1_l2_avx512_full, c17_o1_l2_avx512_full__witness, binary_body, l2_distance_sq_f32_avx512_entry, 83, 85);
 c17_kernel!(c17_o1_dotnorms_avx512, c17_o1_dotnorms_avx512__witness, triple_body, dot_and_norms_f32_avx512_entry, 35, 37);
 c17_kernel!(c17_o1_dotnorms_avx512_full, c17_o1_dotnorms_avx512_full__witness, triple_body, dot_and_norms_f32_avx512_entry, 83, 85);
+
+// -------------------------------------------------------------------------------------------
+// C06 O6.8 — lane coverage of the AVX-512 kernels: every input lane of the 16-lane chunks is consumed exactly once and
+// a[i] is paired with b[i].  Values are irrelevant to *which* lanes are read, so the arithmetic intrinsics are replaced
+// by an exact integer model on bit patterns restricted to {0, 1}:   sub -> a XOR b,   fmadd(x, y, acc) -> acc + (x AND y),
+// add -> a + b  (32-bit lane-wise).  Loads, stores, the loop structure and the offset arithmetic are the real code.  The
+// final horizontal reduction is the kernel's own f32 sum over the stored lanes: the lane counters are tiny bit patterns
+// (denormals), whose f32 sum is exact, so the returned bits are the number of lanes i < len with f(a_i, b_i) = 1 —
+// compared with the count computed directly from the two input masks.  Lengths: 32 (two left-over chunks; 19 s) and, in the
+// thorough tier, 48 (three; 13 min); the 4x-unrolled loop (length >= 64) and the scalar tail are outside (cost).
+// -------------------------------------------------------------------------------------------
+#[cfg(target_arch = "x86_64")]
+pub(crate) mod lanes {
+    use std::arch::x86_64::*;
+
+    fn l(v: __m512) -> [u32; 16] {
+        unsafe { core::mem::transmute(v) }
+    }
+    fn m(x: [u32; 16]) -> __m512 {
+        unsafe { core::mem::transmute(x) }
+    }
+    pub fn sub512(a: __m512, b: __m512) -> __m512 {
+        let (a, b) = (l(a), l(b));
+        let mut o = [0u32; 16];
+        let mut i = 0;
+        while i < 16 {
+            o[i] = a[i] ^ b[i];
+            i += 1;
+        }
+        m(o)
+    }
+    pub fn fmadd512(x: __m512, y: __m512, acc: __m512) -> __m512 {
+        let (x, y, c) = (l(x), l(y), l(acc));
+        let mut o = [0u32; 16];
+        let mut i = 0;
+        while i < 16 {
+            o[i] = c[i].wrapping_add(x[i] & y[i]);
+            i += 1;
+        }
+        m(o)
+    }
+    pub fn add512(a: __m512, b: __m512) -> __m512 {
+        let (a, b) = (l(a), l(b));
+        let mut o = [0u32; 16];
+        let mut i = 0;
+        while i < 16 {
+            o[i] = a[i].wrapping_add(b[i]);
+            i += 1;
+        }
+        m(o)
+    }
+
+    fn l8(v: __m256) -> [u32; 8] {
+        unsafe { core::mem::transmute(v) }
+    }
+    fn m8(x: [u32; 8]) -> __m256 {
+        unsafe { core::mem::transmute(x) }
+    }
+    pub fn sub256(a: __m256, b: __m256) -> __m256 {
+        let (a, b) = (l8(a), l8(b));
+        let mut o = [0u32; 8];
+        let mut i = 0;
+        while i < 8 {
+            o[i] = a[i] ^ b[i];
+            i += 1;
+        }
+        m8(o)
+    }
+    pub fn fmadd256(x: __m256, y: __m256, acc: __m256) -> __m256 {
+        let (x, y, c) = (l8(x), l8(y), l8(acc));
+        let mut o = [0u32; 8];
+        let mut i = 0;
+        while i < 8 {
+            o[i] = c[i].wrapping_add(x[i] & y[i]);
+            i += 1;
+        }
+        m8(o)
+    }
+    pub fn add256(a: __m256, b: __m256) -> __m256 {
+        let (a, b) = (l8(a), l8(b));
+        let mut o = [0u32; 8];
+        let mut i = 0;
+        while i < 8 {
+            o[i] = a[i].wrapping_add(b[i]);
+            i += 1;
+        }
+        m8(o)
+    }
+
+    pub const MAXL: usize = 80;
+
+    /// (a, b, len, mask_a, mask_b): lanes hold bit pattern 0 or 1 taken from two arbitrary masks; the length is concrete per
+    /// harness instance (a symbolic slice length made CBMC run out of memory on the pointer arithmetic of the loads).
+    pub fn inputs(chunks: usize) -> ([f32; MAXL], [f32; MAXL], usize, u128, u128) {
+        let (ma, mb): (u128, u128) = (kani::any(), kani::any());
+        let mut a = [0.0f32; MAXL];
+        let mut b = [0.0f32; MAXL];
+        let mut i = 0;
+        while i < MAXL {
+            a[i] = f32::from_bits(((ma >> i) & 1) as u32);
+            b[i] = f32::from_bits(((mb >> i) & 1) as u32);
+            i += 1;
+        }
+        (a, b, chunks * 16, ma, mb)
+    }
+
+    pub fn low(mask: u128, len: usize) -> u128 {
+        mask & ((1u128 << len) - 1)
+    }
+}
+
+macro_rules! c06_lanes {
+    ($name:ident, $wname:ident, $body:ident, $chunks:expr) => {
+        #[cfg(target_arch = "x86_64")]
+        #[kani::proof]
+        #[kani::unwind(82)]
+        #[kani::stub(std::arch::x86_64::_mm512_fmadd_ps, crate::simd::verif_proofs::lanes::fmadd512)]
+        #[kani::stub(std::arch::x86_64::_mm512_add_ps, crate::simd::verif_proofs::lanes::add512)]
+        #[kani::stub(std::arch::x86_64::_mm512_sub_ps, crate::simd::verif_proofs::lanes::sub512)]
+        fn $name() {
+            $body($chunks, false);
+        }
+        #[cfg(target_arch = "x86_64")]
+        #[kani::proof]
+        #[kani::unwind(82)]
+        #[kani::stub(std::arch::x86_64::_mm512_fmadd_ps, crate::simd::verif_proofs::lanes::fmadd512)]
+        #[kani::stub(std::arch::x86_64::_mm512_add_ps, crate::simd::verif_proofs::lanes::add512)]
+        #[kani::stub(std::arch::x86_64::_mm512_sub_ps, crate::simd::verif_proofs::lanes::sub512)]
+        fn $wname() {
+            $body($chunks, true);
+        }
+    };
+}
+
+#[cfg(target_arch = "x86_64")]
+fn lanes_l2_body(chunks: usize, witness: bool) {
+    let (a, b, len, ma, mb) = lanes::inputs(chunks);
+    let got = l2_distance_sq_f32_avx512_entry(&a[..len], &b[..len]);
+    if witness {
+        kani::cover!(got.to_bits() > 1, "more than one lane pair differs");
+        return;
+    }
+    assert!(got.to_bits() == lanes::low(ma ^ mb, len).count_ones(), "C06: AVX-512 L2 kernel consumes every lane pair (a[i], b[i]) of the 16-lane chunks exactly once");
+}
+#[cfg(target_arch = "x86_64")]
+fn lanes_dot_body(chunks: usize, witness: bool) {
+    let (a, b, len, ma, mb) = lanes::inputs(chunks);
+    let got = dot_f32_avx512_entry(&a[..len], &b[..len]);
+    if witness {
+        kani::cover!(got.to_bits() > 1, "more than one product set");
+        return;
+    }
+    assert!(got.to_bits() == lanes::low(ma & mb, len).count_ones(), "C06: AVX-512 dot kernel consumes every lane pair (a[i], b[i]) of the 16-lane chunks exactly once");
+}
+#[cfg(target_arch = "x86_64")]
+fn lanes_sumsq_body(chunks: usize, witness: bool) {
+    let (a, _b, len, ma, _mb) = lanes::inputs(chunks);
+    let got = sum_squares_f32_avx512_entry(&a[..len]);
+    if witness {
+        kani::cover!(got.to_bits() > 1, "more than one lane set");
+        return;
+    }
+    assert!(got.to_bits() == lanes::low(ma, len).count_ones(), "C06: AVX-512 sum-of-squares kernel consumes every lane of the 16-lane chunks exactly once");
+}
+c06_lanes!(c06_o8_lanes_l2_avx512_c2, c06_o8_lanes_l2_avx512_c2__witness, lanes_l2_body, 2);
+c06_lanes!(c06_o8_lanes_l2_avx512_c3, c06_o8_lanes_l2_avx512_c3__witness, lanes_l2_body, 3);
+c06_lanes!(c06_o8_lanes_dot_avx512_c2, c06_o8_lanes_dot_avx512_c2__witness, lanes_dot_body, 2);
+c06_lanes!(c06_o8_lanes_sumsq_avx512_c2, c06_o8_lanes_sumsq_avx512_c2__witness, lanes_sumsq_body, 2);
+
+// the same for the AVX2 kernels (8-lane chunks): lengths 16 and 24 (two / three left-over chunks)
+macro_rules! c06_lanes256 {
+    ($name:ident, $wname:ident, $body:ident, $len:expr) => {
+        #[cfg(target_arch = "x86_64")]
+        #[kani::proof]
+        #[kani::unwind(82)]
+        #[kani::stub(std::arch::x86_64::_mm256_fmadd_ps, crate::simd::verif_proofs::lanes::fmadd256)]
+        #[kani::stub(std::arch::x86_64::_mm256_add_ps, crate::simd::verif_proofs::lanes::add256)]
+        #[kani::stub(std::arch::x86_64::_mm256_sub_ps, crate::simd::verif_proofs::lanes::sub256)]
+        fn $name() {
+            $body($len, false);
+        }
+        #[cfg(target_arch = "x86_64")]
+        #[kani::proof]
+        #[kani::unwind(82)]
+        #[kani::stub(std::arch::x86_64::_mm256_fmadd_ps, crate::simd::verif_proofs::lanes::fmadd256)]
+        #[kani::stub(std::arch::x86_64::_mm256_add_ps, crate::simd::verif_proofs::lanes::add256)]
+        #[kani::stub(std::arch::x86_64::_mm256_sub_ps, crate::simd::verif_proofs::lanes::sub256)]
+        fn $wname() {
+            $body($len, true);
+        }
+    };
+}
+#[cfg(target_arch = "x86_64")]
+fn lanes256_l2_body(len: usize, witness: bool) {
+    let (a, b, _l, ma, mb) = lanes::inputs(0);
+    let got = l2_distance_sq_f32_avx2_entry(&a[..len], &b[..len]);
+    if witness {
+        kani::cover!(got.to_bits() > 1, "more than one lane pair differs");
+        return;
+    }
+    assert!(got.to_bits() == lanes::low(ma ^ mb, len).count_ones(), "C06: AVX2 L2 kernel consumes every lane pair (a[i], b[i]) of the 8-lane chunks exactly once");
+}
+#[cfg(target_arch = "x86_64")]
+fn lanes256_dot_body(len: usize, witness: bool) {
+    let (a, b, _l, ma, mb) = lanes::inputs(0);
+    let got = dot_f32_avx2_entry(&a[..len], &b[..len]);
+    if witness {
+        kani::cover!(got.to_bits() > 1, "more than one product set");
+        return;
+    }
+    assert!(got.to_bits() == lanes::low(ma & mb, len).count_ones(), "C06: AVX2 dot kernel consumes every lane pair (a[i], b[i]) of the 8-lane chunks exactly once");
+}
+c06_lanes256!(c06_o8_lanes_l2_avx2_c2, c06_o8_lanes_l2_avx2_c2__witness, lanes256_l2_body, 16);
+c06_lanes256!(c06_o8_lanes_l2_avx2_c3, c06_o8_lanes_l2_avx2_c3__witness, lanes256_l2_body, 24);
+c06_lanes256!(c06_o8_lanes_dot_avx2_c2, c06_o8_lanes_dot_avx2_c2__witness, lanes256_dot_body, 16);
+c06_lanes256!(c06_o8_lanes_dot_avx2_c3, c06_o8_lanes_dot_avx2_c3__witness, lanes256_dot_body, 24);
